@@ -309,21 +309,32 @@ def check_overrides(ctx, R="C14.override"):
     )
     model = ctx.model
     fn = model.func(DS, "DynamicScenario._override")
+    # the undo record: the result of <object>._override(...), bound to a local or used where it is computed
     tok = None
+    tok_call = None
+    tok_stmt = None
     for n in walk_local(fn):
-        if isinstance(n, ast.Assign) and isinstance(n.value, ast.Call) and isinstance(n.value.func, ast.Attribute) and n.value.func.attr == "_override" and isinstance(n.targets[0], ast.Name):
-            tok = n.targets[0].id
-            tok_stmt = n
-    if tok is None:
+        if isinstance(n, ast.Call) and isinstance(n.func, ast.Attribute) and n.func.attr == "_override" and unparse(n.func.value) not in ("self", "super()"):
+            tok_call = n
+            p_ = parent(n)
+            if isinstance(p_, ast.Assign) and isinstance(p_.targets[0], ast.Name):
+                tok = p_.targets[0].id
+                tok_stmt = p_
+    if tok_call is None:
         raise AnalysisError("shape not recognised: DynamicScenario._override undo token")
+    if tok is None:
+        tok = "<undo record>"
+
+    def mentions(e):
+        return tok in lib.names_loaded(e) or any(x is tok_call for x in ast.walk(e))
 
     def consumes(s):
         for n in ast.walk(s):
-            if isinstance(n, ast.Assign) and any("self._overrides[" in unparse(t) for t in n.targets) and tok in lib.names_loaded(n.value):
+            if isinstance(n, ast.Assign) and any("self._overrides[" in unparse(t) for t in n.targets) and mentions(n.value):
                 return True
-            if isinstance(n, ast.Call) and isinstance(n.func, ast.Attribute) and n.func.attr in ("update", "setdefault") and "self._overrides" in unparse(n.func.value) and any(tok in lib.names_loaded(a) for a in n.args):
+            if isinstance(n, ast.Call) and isinstance(n.func, ast.Attribute) and n.func.attr in ("update", "setdefault") and "self._overrides" in unparse(n.func.value) and any(mentions(a) for a in n.args):
                 return True
-            if isinstance(n, ast.Return) and n.value is not None and tok in lib.names_loaded(n.value):
+            if isinstance(n, ast.Return) and n.value is not None and mentions(n.value):
                 return True
         return False
 
@@ -345,7 +356,7 @@ def check_overrides(ctx, R="C14.override"):
     for c in walk_local(fn):
         if isinstance(c, ast.Call) and isinstance(c.func, ast.Attribute) and c.func.attr == "update" and c.args:
             recv, arg = unparse(c.func.value), c.args[0]
-            if "self._overrides" in recv and tok in lib.names_loaded(arg):
+            if "self._overrides" in recv and mentions(arg):
                 ctx.finding(
                     R,
                     c,
@@ -359,7 +370,7 @@ def check_overrides(ctx, R="C14.override"):
             spreads = [unparse(v) for k, v in zip(c.keys, c.values) if k is None]
             if len(spreads) == 2 and tok in spreads[1] and "self._overrides" in spreads[0]:
                 ctx.finding(R, c, "undo record merged newest-first", f"DynamicScenario._override builds `{unparse(c)}`: the newly saved values replace the earlier ones")
-    rest = fn.body[fn.body.index(tok_stmt) + 1 :] if tok_stmt in fn.body else fn.body
+    rest = fn.body[fn.body.index(tok_stmt) + 1 :] if tok_stmt is not None and tok_stmt in fn.body else fn.body
     if all_paths(rest):
         ctx.ok(R, fn, f"the undo record `{tok}` is stored into self._overrides on every path")
     else:
